@@ -172,6 +172,7 @@ ModelCheck(pre, c, m, tainted) ==
   ELSE IF ~WellFormed(m) THEN "WellFormed"
   ELSE IF ~CountersConsistent(m) THEN "CountersConsistent"
   ELSE IF ~StepRel(pre, c, m, m.ret, ModelMap(m)) THEN "StepRel"
+  ELSE IF IsDelete(c) /\ IterFrom(DelFlagsOf(m, c), m.ret) # DeleteRetExpected(pre, c, m) THEN "DeleteRet"
   ELSE IF ~ModelPropsAligned(pre, m) THEN "PropsAligned"
   ELSE IF Manifoldish(m) /\ ~CacheIsInverse(m) THEN "CacheIsInverse"
   ELSE IF ~tainted /\ Manifoldish(m) /\ ~FanOrder(m) THEN "FanOrder"
